@@ -64,6 +64,13 @@ ParseOk(cfg, s, a, r) ==
     /\ Len(r.items) <= Len(a.b) + 2
     /\ a.p \in {"fasta", "fastq", "either"}
     /\ a.lay # 0 => LayoutClause(cfg, s, a, r)
+    \* other ways to obtain the same records (a.how: copies by clone / serde / clone_from, read() then
+    \* records() on one reader, iterator adapters, file constructors): `items` is judged as above, plus
+    /\ a.how = "adapters" => /\ r.count = Len(r.items)
+                             /\ r.last = IF r.items = << >> THEN << >> ELSE << r.items[Len(r.items)] >>
+    /\ a.how = "copies" => r.fresh_empty = 1                       \* Record::new() = Record::default(), empty
+    /\ (a.how = "from_file" /\ a.p = "either" /\ a.lay # 0 /\ a.cut < 0 /\ cfg.recs # << >>) =>
+            r.kind_file = cfg.kind                                  \* get_kind_file: the matching parser
 
 SniffAtOk(cfg, a, r) ==
     /\ r.st = "ok" /\ r.capped = 0
@@ -93,6 +100,7 @@ Explains(cfg, s, e) ==
       [] OTHER -> FALSE
 
 ParseExact(cfg, a, r) ==
+    /\ (a.how = "from_file" /\ a.p = "either") => r.kind_file = SniffKind(a.b)
     /\ IsAscii(a.b) => /\ r.items = ItemsFor(a.p, a.b)
                        /\ a.p = "either" => r.vk = VariantKinds(r.items, SniffKind(a.b))
     /\ (a.lay # 0 /\ a.cut >= 0 /\ cfg.kind = "fasta") =>
